@@ -221,7 +221,7 @@ PROPS = {
     },
     "C03": {
         "level": "proof",
-        "verus": ["lexer", "cursor", "lexer_numbers"],
+        "verus": ["lexer", "cursor", "lexer_numbers", "lexer_strings"],
         "frame": ["cursor_fields_written_only_by_primitives"],
         "kani": ["apollo-parser/lexer.rs", "apollo-parser/cursor.rs"],
         "technique": "Verus contract on the extracted lexer state machine (Cursor::advance) over a ghost cursor model (unbounded) + Kani loop-free harnesses over every char for the lookup tables",
@@ -234,14 +234,16 @@ PROPS = {
                        "`\"` StringCharacter* `\"` (StringCharacter = any char but `\"`, `\\`, LF, CR | `\\u` + exactly 4 hex digits whose value is not a surrogate (D800..DFFF: the documented exception -- such escapes are rejected) | `\\` + EscapedCharacter; written as a left-linear grammar "
                        "q_open / q_body / q_backslash / q_unicode over the consumed prefix) or starts and ends with `\"\"\"`; Cursor::done returns Ok iff no error was recorded for the token. "
                        "Unit lexer_numbers (a second, lighter pass over the same extracted advance / eof) proves the converse for numbers -- `0e5`, `1.5e+3`, `-0`, `12,` can never be rejected -- and that an error "
-                       "recorded for one token cannot leak into the next. Kani proves for every char value that the lookup tables (Punctuator kinds, NameStart) and the character classes equal the October 2021 tables; these are the contracts "
+                       "recorded for one token cannot leak into the next. Unit lexer_strings (a third light pass) proves the converse for quoted strings: an error item that starts with a quote has no prefix, itself included, that is a "
+                       "complete quoted StringValue of the grammar (so no valid literal is ever rejected and the lexer never runs past a valid literal's closing quote, except that `\"\"` followed by a quote opens a block string); "
+                       "the grammar facts are lemmas over the shared string grammar: the five prefix classes are pairwise disjoint (the automaton is deterministic), viability is prefix-closed, every error site leaves the grammar. Kani proves for every char value that the lookup tables (Punctuator kinds, NameStart) and the character classes equal the October 2021 tables; these are the contracts "
                        "the Verus unit assumes for lookup::*.",
         "assumptions": ["Cursor's primitives bump / eatc / current_str / prev_str / drain / add_err / new (lexer/cursor.rs) are no longer assumed: unit `cursor` proves their extracted bodies against exactly the contracts the state machine's proof uses (shared clause lists), with a representation invariant tying index / offset / pending / the CharIndices iterator to the ghost model. Assumed instead: std's documented behaviour of CharIndices::next, str::len, byte-range slicing / str::get on char boundaries (shims)",
                         "the representation invariant holds whenever a primitive is called: established by Cursor::new, preserved by every primitive (proved), and nothing else writes the fields (frame check cursor_fields_written_only_by_primitives)",
                         "`&self.source[a..b]` is rewritten to str_slice(self.source, a, b) whose precondition is 'a <= b, both char boundaries' (std semantics of str slicing, assumed)",
                         "u32::from_str_radix(s, 16) is Ok(the value of the digits) for 1..=8 hex digits; char::from_u32 is Some exactly for non-surrogate values <= 0x10FFFF (std documentation, assumed)"],
         "not_decided": ["block strings: only the `\"\"\"` delimiters are proved, not the BlockStringCharacter grammar (where the closing delimiter may and may not appear)",
-                        "the converse direction (an error is reported ONLY if the input is not a sequence of valid tokens) is proved for NUMBERS only (unit lexer_numbers: an error on text starting with a digit or `-` means the text is no prefix of any number and not a complete number that may be followed by the offending char); for strings, names, punctuators and the start state it is not decided",
+                        "the converse direction (an error is reported ONLY if the input is not a sequence of valid tokens) is proved for NUMBERS (unit lexer_numbers: an error on text starting with a digit or `-` means the text is no prefix of any number and not a complete number that may be followed by the offending char) and for QUOTED STRINGS (unit lexer_strings); for block strings, names, punctuators and the start state (`Unexpected character`) it is not decided",
                         "byte offsets reported in Token::index / Error::index", "the documented exception for braced / surrogate-pair escapes"],
     },
     "C21": {
